@@ -395,6 +395,7 @@ pub fn run(ctx: &Ctx) -> Report {
                 TZ strings (generated sentences, their edits, non-UTF-8 bytes through the footer path); all constructors at i32/i64 extremes; and every query operation (lookup at extremes and at transitions +-1, find, find_n, project, to_string, total_nanoseconds) on whatever was accepted. Run in the release and in the overflow-checked build. distinct_nontrivial = distinct hostile inputs."
         .into();
     rep.required_classes = vec![
+        "tz_string_number_at_an_integer_width_limit",
         "truncation_at_every_length",
         "hostile_header_count",
         "extreme_transition_time",
@@ -496,6 +497,40 @@ pub fn run(ctx: &Ctx) -> Report {
                 let ch = *rng.pick(b"9A<");
                 for _ in 0..rng.range(20, 400) {
                     s.insert(p, ch);
+                }
+            }
+            if rng.chance(1, 3) {
+                // a number of the string replaced by a value at a width limit of the machine integers: 9, 10, 11,
+                // 19, 20 digits, just below / at / above 2^31, 2^32, 2^63, 2^64 (the arithmetic on parsed fields must
+                // neither overflow nor wrap)
+                const BIG: [&str; 22] = [
+                    "999999999", "2147483647", "2147483648", "2147483649", "4294967295", "4294967296", "4294967297", "4294967322", "9999999999", "0000000005", "00000000026", "99999999999",
+                    "596523", "596524", "1193047", "9223372036854775807", "9223372036854775808", "18446744073709551615", "18446744073709551616", "2147483647:59:59", "35791394", "35791395",
+                ];
+                let runs: Vec<(usize, usize)> = {
+                    let mut v = vec![];
+                    let mut p = 0;
+                    while p < s.len() {
+                        if s[p].is_ascii_digit() {
+                            let mut q = p;
+                            while q < s.len() && s[q].is_ascii_digit() {
+                                q += 1;
+                            }
+                            v.push((p, q));
+                            p = q;
+                        } else {
+                            p += 1;
+                        }
+                    }
+                    v
+                };
+                if !runs.is_empty() {
+                    let (p, q) = *rng.pick(&runs);
+                    let mut t = s[..p].to_vec();
+                    t.extend(rng.pick(&BIG).as_bytes());
+                    t.extend(&s[q..]);
+                    s = t;
+                    l.class("tz_string_number_at_an_integer_width_limit");
                 }
             }
             parse_string(l, &mut m, &s, rng);
